@@ -298,7 +298,12 @@ impl Scenario {
             n_signers,
             n_replicas: krng.range(0, 2) as usize,
             serde_roundtrip: krng.chance(1, 2),
-            tx_version: if krng.chance(1, 20) { 1 } else { 2 },
+            // 1: no BIP68; 3: standard since TRUC, BIP68 applies to every version >= 2
+            tx_version: match krng.below(20) {
+                0 => 1,
+                1 | 2 => 3,
+                _ => 2,
+            },
             lock_strategy: krng.below(2) as u8,
             prefer_time_units: krng.chance(1, 3),
             psbt_sighash_all: krng.chance(1, 4),
